@@ -115,14 +115,24 @@ def main(argv):
         seen.add(k)
         kf = [f for f in known if f.get('property') == pid and f.get('status') == 'open' and f.get('key') == k]
         # replay natively before reporting
-        rpath = os.path.join(rp.REPLAY_DIR, '%s_%s_%d.replay' % (pid, v.scenario, len(seen)))
-        v.write_replay(rpath) if hasattr(v, 'write_replay') else default_replay(v, rpath)
-        try:
-            nat = rp.run_native(rpath)
-            ok = rp.reproduces(v, nat)
-        except Exception as e:   # build failure etc.
-            nat = {'out': str(e)}
-            ok = False
+        rpath = os.path.join(rp.REPLAY_DIR, '%s_%s_%d.replay' % (pid, v.scenario.replace(':', '_'), len(seen)))
+        if getattr(v, 'kani_harness', None):
+            import kani_check
+            ok, log, scratch = kani_check.playback(v.kani_harness)
+            os.makedirs(rp.REPLAY_DIR, exist_ok=True)
+            open(rpath, 'w').write('# kani concrete playback of %s\n# scratch crate: %s\n%s\n' % (v.kani_harness, scratch, log))
+            nat = {'out': log}
+        elif getattr(v, 'custom_replay', None):
+            ok, log = v.custom_replay(rpath)
+            nat = {'out': log}
+        else:
+            v.write_replay(rpath) if hasattr(v, 'write_replay') else default_replay(v, rpath)
+            try:
+                nat = rp.run_native(rpath)
+                ok = rp.reproduces(v, nat)
+            except Exception as e:   # build failure etc.
+                nat = {'out': str(e)}
+                ok = False
         v.native = {'reproduced': ok, 'summary': (nat.get('out') or '')[-600:]}
         if not ok:
             inconclusive.append('UNCONFIRMED counterexample for %s (%s) did not reproduce natively; replay=%s' % (
